@@ -44,9 +44,10 @@ Print Assumptions C06_columns.
 
 (** Read off the writer on every run: the data file is opened in append mode and the column header is written only
     when the file was empty at that moment; a data point's lines are written and flushed inside the persistence
-    lock.  These are the assumptions under which Model.session_lines describes the writer. *)
-Theorem C06_writer_structure : header_iff_empty = true /\ persist_locked = true.
-Proof. split; reflexivity. Qed.
+    lock, and so is the lazy opening of the file that appends the session's metadata block (under the parallel scheduler
+    two threads cannot both find the file unopened).  These are the assumptions under which Model.session_lines describes the writer. *)
+Theorem C06_writer_structure : header_iff_empty = true /\ persist_locked = true /\ open_locked = true.
+Proof. repeat split; reflexivity. Qed.
 Print Assumptions C06_writer_structure.
 
 (** Non-vacuity: two data points of one new run appended to an empty file. *)
